@@ -11,6 +11,7 @@ use crate::LineBuf;
 /// A GTF writer.
 pub struct Writer<W> {
     inner: W,
+    buf: Vec<u8>,
 }
 
 impl<W> Writer<W> {
@@ -70,7 +71,10 @@ where
     /// let writer = gtf::io::Writer::new(Vec::new());
     /// ```
     pub fn new(inner: W) -> Self {
-        Self { inner }
+        Self {
+            inner,
+            buf: Vec::new(),
+        }
     }
 
     /// Writes a line.
@@ -102,7 +106,9 @@ where
     /// assert_eq!(&writer.get_ref()[..], &expected[..]);
     /// # Ok::<(), io::Error>(())
     pub fn write_line(&mut self, line: &LineBuf) -> io::Result<()> {
-        write_line(&mut self.inner, line)
+        self.buf.clear();
+        write_line(&mut self.buf, line)?;
+        self.inner.write_all(&self.buf)
     }
 
     /// Writes a GTF record.
@@ -146,7 +152,11 @@ where
     /// # Ok::<_, io::Error>(())
     /// ```
     pub fn write_feature_record(&mut self, record: &dyn gff::feature::Record) -> io::Result<()> {
-        line::write_record(&mut self.inner, record)?;
-        line::write_newline(&mut self.inner)
+        // A line is serialized to a buffer first so that a record that fails to serialize does not
+        // leave a partial line in the output.
+        self.buf.clear();
+        line::write_record(&mut self.buf, record)?;
+        line::write_newline(&mut self.buf)?;
+        self.inner.write_all(&self.buf)
     }
 }
